@@ -80,7 +80,7 @@ def check_items(prop, items, seed=0, do_search=True, per=6):
         it.bpj = json.loads(r[1])
         it.harvest = r[2] if len(r) > 2 else None
         try:
-            defs, expr, meta = S.case_for(it.id, it.decls, it.bpj, entities=it.entities, c20=it.c20, mems=it.mems)
+            defs, expr, meta = S.case_for(it.id, it.decls, it.bpj, entities=it.entities, c20=it.c20, mems=it.mems, harvest=it.harvest)
         except bpexport.Unsupported as e:
             it.status = "violation"
             it.detail = {"kind": "unsupported-blueprint", "message": str(e)}
@@ -146,7 +146,7 @@ def check_items(prop, items, seed=0, do_search=True, per=6):
             it.status = "violation"
             it.detail = {"kind": "obligation check_c01 failed", "ideal_circuit_passes": ideal_ok,
                          "partition_matches_design": _classify_wiring(it) if it.harvest and "edges" in it.harvest else None}
-        if do_search and it.status == "violation":
+        if do_search and it.status == "violation" and not getattr(it, "mems", None):
             n = it.meta["entities"]
             r = S.search_failing_input(it.id, defs_by[it.id], n, it.meta["n_inputs"], rng, S.thresholds(it.decls))
             if r:
